@@ -235,6 +235,16 @@ enum V1Var {
 const V1_GOOD_VARIANTS: [V1Var; 8] = [V1Var::Mixed, V1Var::NoChecksum, V1Var::ChecksumNoNewline, V1Var::SigText, V1Var::SigTextRaw, V1Var::NoSignature, V1Var::ShortChecksum, V1Var::InlineDisposition];
 const V1_BAD_VARIANTS: [V1Var; 2] = [V1Var::DataNotBpsv, V1Var::SignatureOnly];
 
+/// Which of the V1_GOOD_VARIANTS layouts (index = variant * 2 + crlf) the client's parser does NOT take for a well-formed
+/// answer. The statement leaves these layouts to the server and does not say which are well-formed, so this is observed by
+/// `self_check` (reference parse of the unsplit bytes) instead of being demanded: a parser that, say, refuses a
+/// `Checksum:` line that is not a checksum makes that layout a malformed answer for the decision table, not a harness error.
+static V1_LAYOUT_REFUSED: [std::sync::atomic::AtomicBool; 16] = [const { std::sync::atomic::AtomicBool::new(false) }; 16];
+
+fn v1_layout_refused(crlf: bool, v: u8) -> bool {
+    V1_LAYOUT_REFUSED[(v as usize % V1_GOOD_VARIANTS.len()) * 2 + usize::from(crlf)].load(Ordering::Relaxed)
+}
+
 fn v1_mime_x(bpsv: &str, class: EpClass, uniq: u64, crlf: bool, var: V1Var) -> Vec<u8> {
     let nl = if crlf { "\r\n" } else { "\n" };
     let boundary = format!("cascverif{uniq:x}");
@@ -493,6 +503,7 @@ impl TcpBeh {
     }
     fn class(&self) -> Class {
         match self {
+            TcpBeh::V1Layout(crlf, v) if v1_layout_refused(*crlf, *v) => Class::Malformed,
             TcpBeh::ValidV2(_) | TcpBeh::ValidV1(_, _) | TcpBeh::V1Layout(_, _) => Class::Good,
             TcpBeh::BadChecksum | TcpBeh::Malformed(_) | TcpBeh::MalformedV1(_) => Class::Malformed,
             TcpBeh::Refused | TcpBeh::CloseMid | TcpBeh::ResetMid | TcpBeh::Stall => Class::Transient,
@@ -2104,8 +2115,11 @@ fn self_check() -> Result<(), String> {
         for crlf in [true, false] {
             for v in 0..V1_GOOD_VARIANTS.len() as u8 {
                 let m = tcp_payload(&TcpBeh::V1Layout(crlf, v), class, 5, 0, 3);
-                if !is_v1_mime_response(&m) || ref_tcp(&m) != tcp_plain {
-                    return Err(format!("V1 layout variant {:?} (crlf={crlf}) of {} does not parse to the wrapped document", V1_GOOD_VARIANTS[v as usize], class.name()));
+                match ref_tcp(&m) {
+                    // the parser does not take this layout for a well-formed answer: observed, not demanded
+                    None => V1_LAYOUT_REFUSED[v as usize * 2 + usize::from(crlf)].store(true, Ordering::Relaxed),
+                    r if is_v1_mime_response(&m) && r == tcp_plain => {}
+                    _ => return Err(format!("V1 layout variant {:?} (crlf={crlf}) of {} parses, but not to the wrapped document", V1_GOOD_VARIANTS[v as usize], class.name())),
                 }
             }
         }
@@ -2167,6 +2181,8 @@ fn main() {
         ctx.inconclusive(&format!("harness self-check failed: {e}"));
         ctx.finish();
     }
+    ctx.obs("v1_layouts.taken_for_well_formed", (0..V1_GOOD_VARIANTS.len() as u8 * 2).filter(|i| !v1_layout_refused(i % 2 == 1, i / 2)).count() as u64);
+    ctx.obs("v1_layouts.refused_by_the_parser(treated as malformed answers)", (0..V1_GOOD_VARIANTS.len() as u8 * 2).filter(|i| v1_layout_refused(i % 2 == 1, i / 2)).count() as u64);
     let rt = match tokio::runtime::Builder::new_multi_thread().worker_threads(16).enable_all().build() {
         Ok(rt) => rt,
         Err(e) => {
